@@ -132,11 +132,12 @@ def cases(tier):
     # two responses
     firsts = [(200, "application/json", "model_ref"), (200, "application/json", ["array", "model_ref"]), (200, "none", "no-schema"),
               (201, "text/plain", "str"), (200, "application/octet-stream", "file"), (200, "application/json", "date"),
-              (200, "application/json", "any"), (200, "application/json", "no-schema")]
+              (200, "application/json", "any"), (200, "application/json", "no-schema"),
+              (200, "text/plain", "int"), (200, "text/plain", "num"), (200, "text/html", "bool")]
     seconds = [(404, "application/json", "model2"), (404, "application/json", "model_ref"), (404, "none", "no-schema"),
                (500, "text/plain", "str"), (204, "none", "no-schema"), ("default", "application/json", "model2"),
                ("2XX", "application/json", "model2"), ("abc", "application/json", "model2"), (404, "application/xml", "model2"),
-               (404, "application/json", "enum_str"), (404, "application/json", ["array", "int"])]
+               (404, "application/json", "enum_str"), (404, "application/json", ["array", "int"]), (404, "text/html", "str"), (201, "text/plain", "int")]
     for a in firsts:
         for b in seconds:
             yield _mk([a, b], [f"r1={a[0]}:{a[1]}:{kname(a[2])}", f"r2={b[0]}:{b[1]}:{kname(b[2])}"],
